@@ -343,6 +343,54 @@ def job_export(gear_cls, hist, units, time_unit):
                meta=dict(family="export", cls=gear_cls, hist=hist))
 
 
+def job_update_time():
+    """Powertrain.update_time: the interface contract the solver proofs use (Iface.update_time)"""
+    def body(c, O):
+        if c.concrete:
+            return
+        s = simulated(c, "SpurGear", 2)
+        if s is None:
+            return
+        pt, motor, gear, times, samples = s
+        before = list(pt.time)
+        t = H.mkq(c, "Time", "t_new")
+        st, r = H.call(pt.update_time, t)
+        O.prove("update_time:appends-exactly-the-given-instant", st == "ok" and pt.time[:-1] == before and pt.time[-1] is t and len(pt.time) == 3,
+                props=("C11", "C17"))
+        dtq = H.mkq(c, "TimeInterval", "dt_new")
+        st, r = H.call(pt.update_time, dtq)
+        O.prove("update_time:a-TimeInterval-is-a-Time(accepted)", st == "ok" and pt.time[-1] is dtq, props=("C11",))
+        bad = H.mkq(c, "Torque", "not_a_time", valid=False)
+        n0 = len(pt.time)
+        st, r = H.call(pt.update_time, bad)
+        O.prove("update_time:rejects-a-non-Time-and-leaves-the-axis", st == "raise" and isinstance(r, TypeError) and len(pt.time) == n0, props=("C11", "C17"))
+        stt, e = H.call(setattr, pt, "time", [])
+        O.prove("time:no-setter", stt == "raise", props=("C11", "C20"))
+        O.cover("done")
+    return Job("powertrain.update_time", body, ("C11", "C17", "C20"), functions=["gearpy.powertrain.Powertrain.update_time", "gearpy.powertrain.Powertrain.time"],
+               expect_covers=("done",), meta=dict(family="powertrain-misc"))
+
+
+def job_solver_init():
+    """Solver.__init__: accepts an assembled powertrain, starts unlocked"""
+    def body(c, O):
+        if c.concrete:
+            return
+        import gearpy.solver as S
+        s = simulated(c, "SpurGear", 1)
+        if s is None:
+            return
+        pt = s[0]
+        st, r = H.call(S.Solver, pt)
+        O.prove("Solver.__init__:accepts-a-powertrain-and-starts-unlocked",
+                st == "ok" and r._Solver__powertrain is pt and r._Solver__powertrain_is_locked is False, props=("C12", "C13"))
+        st, r = H.call(S.Solver, object())
+        O.prove("Solver.__init__:rejects-a-non-powertrain", st == "raise" and isinstance(r, TypeError), props=("C12",))
+        O.cover("done")
+    return Job("solver.__init__", body, ("C12", "C13"), functions=["gearpy.solver.Solver.__init__"], expect_covers=("done",),
+               meta=dict(family="powertrain-misc"))
+
+
 def subsets_quick():
     out = [("all(default)", None)]
     for v in ALL_VARS:
@@ -354,7 +402,7 @@ def subsets_quick():
 
 
 def all_jobs(exact_tables=None):
-    jobs = []
+    jobs = [job_update_time(), job_solver_init()]
     for cls in ("SpurGear", "HelicalGear", "WormWheel", "WormGear", "Flywheel"):
         for hist in (1, 2, 3):
             jobs.append(job_reset(cls, hist))
